@@ -182,6 +182,44 @@ def run(ctx):
                      'the cancelling removal drops the entry and its timer and does not resolve the (abandoned) call', [m.loc(m.d)])
         R.ob('C03.cancel', ('dispatch poll', 'cancel is written'), True, 'the Cancel message is handed to the transport', [g.loc(st_)])
 
+    # ------------------------------------------------------------------ 7. a consumed cancellation is written (or the connection ends) — E-SHAPE
+    from .wake import dispatch_setup
+    from .shape_common import run_jobs
+    poll_, reach_, acc, cells, cmps = dispatch_setup(F, P)
+    res = run_jobs(F, [{'key': 'owed', 'entry': poll_.id, 'aut': ('custom', OwedCancelAut), 'acc': acc, 'cells': cells}])['owed']
+    R.count('states_explored', res['stats'].get('states', 0))
+    owed_exits = sorted({repr(ret)[:40] for (ret, e, lab) in res['exits'] if e[0] == 'owed' and not ('Err' in repr(ret)) and not any(isinstance(v, tuple) and v and v[0] == 'Some' for _, v in e[1])})
+    R.ob('C03.owed', ('dispatch poll', 'a cancellation taken for an in-flight request is written before the dispatch returns'), not owed_exits and not res['viol'],
+         'once an id was taken from the cancellation queue and its entry removed, the Cancel is handed to the transport in the same activation (or the dispatch ends with an error): it cannot be dropped by an early return',
+         sorted({s_ for v in res['viol'].values() for s_ in v}) or [poll.loc(poll.d)], 'exits with an unwritten cancellation: %s; %s' % (owed_exits, list(res['viol'])))
+    # the Cancel write's failure is terminal (the "connection lost" exemption)
+    for g, sbb, st_, agg in csend:
+        rets = P.root(P._local_whole(g, 0), inline=False)
+        ok = any(P.unbound(r) == ('call', g.id, sbb) and (('t', '?err') in p or ('t', 'errval') in p or ('v', 'Err') in p) for r, p in rets)
+        R.ob('C03.cancel', ('dispatch poll', 'a failed cancel write ends the dispatch'), ok,
+             'if the Cancel cannot be written the error is returned (the connection is given up) rather than silently dropped', [g.loc(st_)])
+
 
 def _base_ty(f, pl):
     return f.local_ty(pl['l'])
+
+
+class OwedCancelAut:
+    """idle -> taken (id read from the cancellation queue) -> owed (its entry was removed: a Cancel must follow) -> idle (written)"""
+    name = 'owed'
+
+    def init(self):
+        return 'idle'
+
+    def step(self, aut, ev, shape, site, X):
+        if ev[0] == 'K' and 'Some' in repr(shape):
+            if aut == 'owed':
+                X.violation(('CANCEL_DROPPED_BEFORE_NEXT',), site)
+            return 'taken'
+        if ev == ('M', 'remove') and aut == 'taken':
+            return 'owed' if 'Some' in repr(shape) else 'idle'
+        if ev == ('W', 'start_send') and aut == 'owed':
+            return 'idle'
+        if ev[0] in ('R', 'Q', 'T') and aut == 'taken':
+            return 'idle'
+        return aut
